@@ -54,6 +54,8 @@ def configs(tier):
             out.append(("copy", lay, shape))
             if shape == () or (shape == (2,) and lay == "B"):
                 out.append(("compare", lay, shape))     # every cell comparison forks: small tables only
+            if shape == (2, 2):
+                out.append(("compare_shape", lay, shape))
     for shape in shapes:
         for parts in (("A",), ("A", "B"), ("B", "C"), ("A", "B", "C"), ("A", "A")):
             out.append(("combine", parts, shape))
@@ -353,6 +355,15 @@ def harness(cx, cfg):
         except symx.FrozenWrite:
             cx.fail("copy_fields wrote into its source")
         return
+    if fn == "compare_shape":
+        _, lay, shape = cfg
+        a, la = _table(cx, lay, shape, tag="a")
+        other = a.copy().reshape((4,))
+        r2 = nu.compare_arrays(a, other)
+        cx.check("compare_arrays: tables of different shape differ even when their flattened cells agree", not (r2 is True or r2 == True))
+        r3 = nu.compare_arrays(other, a)
+        cx.check("compare_arrays: ... in either argument order", not (r3 is True or r3 == True))
+        return
     if fn == "compare":
         _, lay, shape = cfg
         a, la = _table(cx, lay, shape, tag="a")
@@ -364,6 +375,14 @@ def harness(cx, cfg):
         sub = nu.extract_fields(a, list(a.dtype.names)[:2])
         cx.check("compare_arrays ignores missing fields by default", nu.compare_arrays(a, sub) is True or nu.compare_arrays(a, sub) == True)
         cx.check("compare_arrays(ignore_missing=False) reports a missing field", not nu.compare_arrays(a, sub, ignore_missing=False))
+        # the same cells laid out in another shape are not the same table
+        n_el = 1
+        for d_ in shape:
+            n_el *= d_
+        if len(shape) == 2:
+            other = a.copy().reshape((n_el,))
+            r2 = nu.compare_arrays(a, other)
+            cx.check("compare_arrays: tables of different shape differ even when their flattened cells agree", not (r2 is True or r2 == True))
         return
     raise AssertionError(cfg)
 
@@ -612,7 +631,7 @@ def replay(cand):
                 return no
             return {"reproduced": True, "key": "copy", "what": "copy_fields_by_name accepted different lengths"}
         return no
-    if fn == "compare":
+    if fn in ("compare", "compare_shape"):
         _, lay, shape = cfg
         a = _real_table(lay, tuple(shape), mdl, tag="a")
         b = _real_table(lay, tuple(shape), mdl, tag="a")
@@ -627,6 +646,15 @@ def replay(cand):
         sub = nu.extract_fields(a, list(a.dtype.names)[:2])
         if not nu.compare_arrays(a, sub) or nu.compare_arrays(a, sub, ignore_missing=False):
             return {"reproduced": True, "key": "compare", "what": "compare_arrays handling of missing fields"}
+        if a.ndim == 2 and nu.compare_arrays(a, a.copy().reshape(-1)):
+            return {"reproduced": True, "key": "compare:shape", "what": "compare_arrays reports a %r table and its flattened copy as matching" % (a.shape,)}
+        import numpy as _np
+        t1 = _np.zeros(2, dtype=[("v", "f8", (2, 3))])
+        t1["v"] = _np.arange(12.0).reshape(2, 2, 3)
+        t2 = _np.zeros(2, dtype=[("v", "f8", (3, 2))])
+        t2["v"] = _np.arange(12.0).reshape(2, 3, 2)
+        if nu.compare_arrays(t1, t2):
+            return {"reproduced": True, "key": "compare:shape", "what": "compare_arrays reports fields with sub-array shapes (2,3) and (3,2) as matching"}
         return no
     raise AssertionError(fn)
 
